@@ -98,6 +98,9 @@ Pre(s, op, a) ==
     \* the reaction of slot x rebuilt as a phase-tagged reaction (all chemicals in the gas phase) and copied / re-based / scaled /
     \* combined: the driver reports whether the tagged operand stayed as it was (a.how names the operation)
     [] op = "tagged_probe" -> a.x \in Slots /\ IsRxn(s.Rx[a.x])
+    \* a system assembled from copies of the set's members whose members are then ALL switched to the other basis: the call
+    \* is refused (the library's answer) or gives what the system gave before (re-basing does not change a reaction's meaning)
+    [] op = "system_rebased" -> s.RS.kind = "system" /\ a.basis \in {"wt", "mol"}
     \* the same reaction re-based to weight (its molar meaning is unchanged)
     [] op \in {"to_wt", "to_mol"} -> {a.d, a.x} \subseteq Slots /\ IsRxn(s.Rx[a.x])
     [] OTHER -> FALSE
@@ -128,7 +131,7 @@ Post(s, op, a) ==
     [] op = "item_imul" -> [s EXCEPT !.RS.items[a.i].X = RMul(@, a.q)]
     [] op = "item_idiv" -> [s EXCEPT !.RS.items[a.i].X = RMul(@, RInv(a.q))]
     [] op = "set_assign_X" -> [s EXCEPT !.RS.items = [i \in DOMAIN s.RS.items |-> [s.RS.items[i] EXCEPT !.X = a.Xs[i]]]]
-    [] op \in {"reduce", "set_copy", "tagged_probe"} -> s
+    [] op \in {"reduce", "set_copy", "tagged_probe", "system_rebased"} -> s
     [] op \in {"to_wt", "to_mol"} -> [s EXCEPT !.Rx[a.d] = s.Rx[a.x]]
 
 ---------------------------------------------------------------------------
@@ -172,6 +175,8 @@ Judge(s, e) ==
      ELSE IF e.op = "reduce" /\ e.obs.reduced_m # ApplyParallel(s.RS.items, s.m) THEN "reduce.not_equivalent"
      ELSE IF e.op = "set_copy" /\ e.obs.reduced_m # ApplySet(s.RS, s.m) THEN "copy.not_equivalent"
      ELSE IF e.op = "set_copy" /\ e.obs.same THEN "result_is_operand"
+     ELSE IF e.op = "system_rebased" /\ ~e.obs.refused /\ NonNegV(ApplySet(s.RS, s.m)) /\ e.obs.reduced_m # ApplySet(s.RS, s.m)
+          THEN "system.rebased_member_not_equivalent"
      ELSE IF u.m # p.m THEN "feed_changed"
      ELSE IF \E x \in Slots : x \notin Touched(e) /\ u.Rx[x] # s.Rx[x] THEN "operand_changed"
      ELSE IF u.Rx # p.Rx THEN
